@@ -44,6 +44,7 @@ fn main() {
     let seed = cx.seed;
     let mut d = new_drv(&mut cx);
     d.stride = stride;
+    d.only_op = d.cx.args.kv.get("only-op").cloned();
     d.phase = support::rng::mix(seed) % stride;
     if budget > 0 {
         match fam.as_str() {
